@@ -607,7 +607,17 @@ def check_case(case, obs=None):
         return "sounding_notes", ("sounding notes (onset, duration in quarters, pitch) of the merged part differ from the score-level note array: "
                                   "%d vs %d rows; only merged %s; only score %s" % (len(km), len(ks), [tuple(map(str, x)) for x in extra], [tuple(map(str, x)) for x in lack])), obs
     full = all(any(e["cls"] == "Measure" for e in case["parts"][pi]["elems"]) and any(e["cls"] == "TimeSignature" for e in case["parts"][pi]["elems"]) for pi in flat)
-    if full or not case.get("pickup"):
+    # onset_quarter comes from each part's own quarter map: comparable when the parts agree on the pickup
+    # (same first measure and time signature) and no part is degenerate (a part with a single time
+    # point maps everything to 0 -- C02's subject)
+    def n_times(pi):
+        ts = set()
+        for e in case["parts"][pi]["elems"]:
+            ts.add(e["s"])
+            if e["e"] is not None:
+                ts.add(e["e"])
+        return len(ts)
+    if (full or not case.get("pickup")) and all(n_times(pi) >= 2 for pi in flat):
         qm = sorted((int(r["pitch"]), float(r["onset_quarter"]), float(r["duration_quarter"])) for r in marr)
         qs = sorted((int(r["pitch"]), float(r["onset_quarter"]), float(r["duration_quarter"])) for r in sarr)
         for a, b_ in zip(qm, qs):
